@@ -133,7 +133,7 @@ DOC_DEFAULT = {'KInt': 'i', 'KBool': 'i', 'KFloat': 'f', 'KStr': 'Z', 'KDict': '
                'KListFloats': 'B', 'KListEmpty': 'J', 'KNumericArray': 'B', 'KByteArray': 'H'}
 
 
-def oracle_value(case_kind, v, vlevel, declared):
+def oracle_value(case_kind, v, vlevel, declared, prior=None):
     """set the value on a fresh line, write, parse back.  returns (fails, observation for the model)"""
     g = impl.gfapy()
     out = []
@@ -144,6 +144,11 @@ def oracle_value(case_kind, v, vlevel, declared):
         r = impl.outcome(lambda: l.set_datatype(name, declared))
         if r[0] != 'ok':
             return [('set_datatype of a tag datatype raised', 'ok', impl.outcome_name(r))], obs
+    if prior is not None and not declared:
+        # the tag existed before with a value of another kind and was deleted: the new assignment starts afresh
+        r0 = impl.outcome(lambda: (l.set(name, prior), l.delete(name)))
+        if r0[0] != 'ok':
+            return [('assigning and deleting a tag raised', 'ok', impl.outcome_name(r0))], obs
     kt = kind_term(v)
     dt_expected = declared or DOC_DEFAULT.get(kt)
     ok_repr = representable(case_kind, v, dt_expected)
@@ -216,8 +221,9 @@ def oracle_value(case_kind, v, vlevel, declared):
 
 
 def py_of(case):
-    return ("import gfapy\nl=gfapy.Line('S\\tA\\t*',vlevel=%d,version='gfa1')\n%sl.set('xy',%s)\nprint(l.get_datatype('xy')); print(str(l)); l.validate_field('xy')"
-            % (case['vlevel'], ("l.set_datatype('xy',%r)\n" % case['declared']) if case['declared'] else '', case['value_repr']))
+    return ("import gfapy\nl=gfapy.Line('S\\tA\\t*',vlevel=%d,version='gfa1')\n%s%sl.set('xy',%s)\nprint(l.get_datatype('xy')); print(str(l)); l.validate_field('xy')"
+            % (case['vlevel'], ("l.set_datatype('xy',%r)\n" % case['declared']) if case['declared'] else '',
+               ("l.set('xy',%r); l.delete('xy')\n" % (case['prior'],)) if case.get('prior') is not None else '', case['value_repr']))
 
 
 def run(ctx, deep, model_ok):
@@ -243,9 +249,13 @@ def run(ctx, deep, model_ok):
                     vr = 'gfapy.ByteArray(%r)' % list(v)
                 vr = vr.replace('inf', "float('inf')").replace('nan', "float('nan')")
                 case = {'kind': kind, 'value_repr': vr, 'vlevel': vlevel, 'declared': declared}
+                prior = None
+                if declared is None and rng.random() < 0.4:
+                    prior = rng.choice([5, 2.5, 'abc', [1, 2], {'a': 1}])
+                    case['prior'] = prior
                 bnd = kind in ('intarray', 'numarray', 'int') or kind in ('mixed', 'char', 'str', 'float')
                 ctx.count(case, bnd)
-                r = impl.outcome(lambda: oracle_value(kind, v, vlevel, declared))
+                r = impl.outcome(lambda: oracle_value(kind, v, vlevel, declared, prior))
                 if r[0] != 'ok':
                     ctx.violation('failing-input', 'the tag API raised a foreign exception: %s' % (r[1],), case, python=py_of(case))
                     continue
@@ -296,5 +306,5 @@ def replay(ctx, body):
         return True
     g = impl.gfapy()
     v = eval(case['value_repr'], {'gfapy': g, 'float': float})
-    r = impl.outcome(lambda: oracle_value(case['kind'], v, case['vlevel'], case['declared']))
+    r = impl.outcome(lambda: oracle_value(case['kind'], v, case['vlevel'], case['declared'], case.get('prior')))
     return r[0] != 'ok' or bool(r[1][0])
